@@ -1,6 +1,8 @@
 """C05 - surface CPR global decode selects the solution nearest the receiver."""
 from __future__ import annotations
 
+import datetime
+
 from ..probe import call
 from ..ref import bits, cpr
 from .. import cprgen
@@ -20,7 +22,7 @@ LEVEL_RULE = (
 EXHAUSTIVE_SUBDOMAINS = ["every NL band 1..59 x hemisphere x newer parity (directed)"]
 ASSUMPTIONS = ["positions whose recovered latitude is within 1e-9 deg of an NL transition are ambiguous, not judged",
                "receiver latitude clamped to [-90,90]; equal timestamps accept either frame"]
-REQUIRED = ["value_result", "no_ref_rejected", "rx_other_hemisphere", "rx_lat_zero", "rx_across_antimeridian",
+REQUIRED = ["value_result", "datetime_ts", "no_ref_rejected", "rx_other_hemisphere", "rx_lat_zero", "rx_across_antimeridian",
             "rx_across_greenwich", "newer_even", "newer_odd", "target_south", "target_west"] + \
            ["band%d" % nl for nl in range(1, 60)]
 
@@ -47,10 +49,17 @@ def m_surface(ctx, case):
             ctx.hit("premise_not_met_skipped")
             return
     fn = adsb.position if case["api"] == "position" else adsb.surface_position
-    r = call(fn, m0, m1, te, to, rxlat, rxlon)
+    if case.get("dt"):
+        # timestamps are documented as int | datetime
+        b0 = datetime.datetime(2024, 1, 1)
+        T0, T1 = b0 + datetime.timedelta(seconds=te), b0 + datetime.timedelta(seconds=to)
+        ctx.hit("datetime_ts")
+    else:
+        T0, T1 = te, to
+    r = call(fn, m0, m1, T0, T1, rxlat, rxlon)
     ctx.ev()
     if case["api"] == "position":
-        r2 = call(adsb.position, m1, m0, to, te, rxlat, rxlon)  # documented order is (even, odd); position() is not
+        r2 = call(adsb.position, m1, m0, T1, T0, rxlat, rxlon)  # documented order is (even, odd); position() is not
         ctx.ev()                                                # required to swap surface frames: only no-crash is judged
         if r2[0] == "exc" and r2[1] != "RuntimeError":
             ctx.violation("surface-decode-raises", frames=[m1, m0], observed=r2)
@@ -147,11 +156,11 @@ def mkcase(rng, lat, lon, order=None, rx=None):
         rx = [max(-90.0, min(90.0, rlat)), rlon]
     o = order or rng.choice(("e", "o", "="))
     base = rng.choice((0, 1446332400, rng.randrange(0, 2**31)))
-    gap = rng.choice((1, 2, 5, 9))
+    gap = rng.choice((1, 2, 5, 9, 0.5, 0.4))
     te, to = (base + gap, base) if o == "e" else (base, base + gap) if o == "o" else (base, base)
     return {"p0": [lat, lon], "p1": [lat1, lon1], "rx": rx, "tc": [rng.choice((5, 6, 7, 8)), rng.choice((5, 6, 7, 8))],
             "mov": rng.randrange(128), "trk": rng.randrange(256), "tbit": rng.randrange(2), "df": rng.choice((17, 17, 18)),
-            "ca": rng.randrange(8), "addr": rng.getrandbits(24), "te": te, "to": to,
+            "ca": rng.randrange(8), "addr": rng.getrandbits(24), "te": te, "to": to, "dt": rng.random() < 0.15,
             "api": rng.choice(("position", "surface_position")), "lower": rng.choice((0, 0, 0, 0, 0, 0, 0, 1, 2, 3))}
 
 
